@@ -153,7 +153,7 @@ def np_st(draw, names, arms, prob_ok=True, defaults_ok=False, metrics=None):
     if name is None:
         return None
     if name == "Radius":
-        p = {"radius": draw(st.sampled_from([1, 2, 1.5, 3, 0.5, 4, 2.0, 9])),
+        p = {"radius": draw(st.sampled_from([1, 2, 1.5, 3, 0.5, 4, 2.0, 9, 0.25, 0.3])),
              "metric": draw(st.sampled_from(metrics or EXACT_METRICS))}
         if prob_ok and draw(st.integers(0, 3)) == 0:
             p["no_nhood_prob_of_arm"] = draw(prob_list_st(len(arms)))
